@@ -24,7 +24,7 @@ BOUND = ("boundary-free hat basis on [0,1]^d, d<=3; uniform component grids: eve
          "harness process only, with the size constant 200 of the real functions replaced by 0 / 10**9 on small grids")
 RULE = BOUND + ("; one case = one (grid or run, data set, lambda, mass lumping, numeric, labels) configuration; non-trivial = the grid has >=1 "
                 "interior point and the data set is non-empty (always)")
-BUDGET = {"quick": 60.0, "thorough": 840.0}
+BUDGET = {"quick": 45.0, "thorough": 840.0}
 
 CLAUSES = {
     "B.R.gram": "analytic system matrix == Gram matrix of the hat basis (exact piecewise integration) + lambda on the diagonal, "
@@ -883,6 +883,28 @@ def _run(ctx):
             if n <= nmax:
                 lvs.append((d, lv, n))
     ctx.exhaustive = False
+    # ---- documented size constants: the small-grid right-hand side handles the samples in one vectorised block; data sets larger than
+    # any internal block size (anchor: > 4096 and > 8192 samples), with and without labels, on small grids
+    for k, (M, lab) in enumerate([(9000, True), (4097, True)] if quick else [(9000, True), (4097, True), (9000, False), (8193, True), (12500, True), (5000, True)]):
+        d = 2 if k % 2 == 0 else 1
+        lv = [rng.randint(1, 3) for _ in range(d)] if d == 2 else [rng.randint(2, 4)]
+        case = {"kind": "uniform", "d": d, "lv": lv, "lam": rng.choice(LAMBDAS), "ml": rng.random() < 0.3,
+                "data": {"kind": rng.choice(["random", "clustered", "mixed"]), "M": M, "seed": rng.randrange(2 ** 31), "labels": lab},
+                "patch": k == 0, "hats": False}
+        ctx.case(case)
+        case_uniform(ctx, case)
+    # ---- histories on one operation: sequences of level vectors with revisits
+    small_lvs = [(d, lv) for d, lv, n in lvs if n <= 60]
+    for k in range(8 if quick else 60):
+        if ctx.out_of_time(0.3):
+            break
+        d = rng.choice([1, 2, 2, 3])
+        pool = [lv for dd, lv in small_lvs if dd == d]
+        seq = [list(rng.choice(pool)) for _ in range(3)]
+        seq.append(seq[0])
+        case = {"kind": "uniform_seq", "d": d, "lvs": seq, "lam": rng.choice(LAMBDAS), "ml": rng.random() < 0.3, "data": random_data_desc(rng)}
+        ctx.case(case)
+        case_uniform_seq(ctx, case)
     reps = 1 if quick else 5
     full_large = 0
     for rep in range(reps):
@@ -900,28 +922,6 @@ def _run(ctx):
                     "data": random_data_desc(rng, mmax=25 if n >= 200 else 40), "patch": n <= 250, "hats": rng.random() < (0.4 if quick else 0.8)}
             ctx.case(case)
             case_uniform(ctx, case)
-    # ---- documented size constants: the small-grid right-hand side handles the samples in one vectorised block; data sets larger than
-    # any internal block size (anchor: > 4096 and > 8192 samples), with and without labels, on small grids
-    for k, (M, lab) in enumerate([(9000, True), (4097, True)] if quick else [(9000, True), (4097, True), (9000, False), (8193, True), (12500, True), (5000, True)]):
-        d = 2 if k % 2 == 0 else 1
-        lv = [rng.randint(1, 3) for _ in range(d)] if d == 2 else [rng.randint(2, 4)]
-        case = {"kind": "uniform", "d": d, "lv": lv, "lam": rng.choice(LAMBDAS), "ml": rng.random() < 0.3,
-                "data": {"kind": rng.choice(["random", "clustered", "mixed"]), "M": M, "seed": rng.randrange(2 ** 31), "labels": lab},
-                "patch": k == 0, "hats": False}
-        ctx.case(case)
-        case_uniform(ctx, case)
-    # ---- histories on one operation: sequences of level vectors with revisits
-    small_lvs = [(d, lv) for d, lv, n in lvs if n <= 60]
-    for k in range(8 if quick else 60):
-        if ctx.out_of_time(0.5):
-            break
-        d = rng.choice([1, 2, 2, 3])
-        pool = [lv for dd, lv in small_lvs if dd == d]
-        seq = [list(rng.choice(pool)) for _ in range(3)]
-        seq.append(seq[0])
-        case = {"kind": "uniform_seq", "d": d, "lvs": seq, "lam": rng.choice(LAMBDAS), "ml": rng.random() < 0.3, "data": random_data_desc(rng)}
-        ctx.case(case)
-        case_uniform_seq(ctx, case)
     tsec["uniform"] = time.time() - t0
     t0 = time.time()
     # ---- non-uniform grids from real dimension-wise runs
